@@ -16,7 +16,7 @@ Clauses (`BaoProofs/Lemmas/SpecPostL.lean`): `LeavesTile`, `StackOk`, `RootLast`
 `BothChildren`.
 -/
 
-namespace Bao.SpecPred
+namespace Bao.SpecPost
 
 open Bao Bao.NodeIterL Bao.Ops
 
@@ -204,7 +204,7 @@ example :
       .parent 2 false true true [], .parent 1 true true true []] := by
   decide +kernel
 
-end Bao.SpecPred
+end Bao.SpecPost
 
 /-
 Status.
